@@ -4,8 +4,8 @@
    stays an exact iff; the link step's name check. *)
 From Coq Require Import String List NArith ZArith Bool Lia.
 From J5V.lib Require Import Outcome Strcase.
-From J5V.model Require Import RulesDecl RulesWrite RulesSpec Validate RulesSpecDec RulesRead RulesCompile.
-From J5V.proofs Require Import RulesProofs RulesReadProofs.
+From J5V.model Require Import RulesDecl RulesWrite RulesSpec Validate RulesSpecDec RulesRead RulesCompile Regex.
+From J5V.proofs Require Import RulesProofs RulesReadProofs RegexProofs RulesRegexProofs.
 Import ListNotations.
 
 (* ---- front checks = evaluable ------------------------------------------------------ *)
@@ -55,25 +55,35 @@ Lemma compile_prop_ok re_ok env idx x o :
 Proof.
   unfold compile_prop. intro H. apply obind_ok in H. destruct H as (u & Hf & H).
   apply front_checks_unit, front_checks_spec in Hf. destruct Hf as [Hm He].
+  destruct (enum_filters_ok env (item_of (p_ty (x_prop x)))); [|discriminate H].
   apply obind_ok in H. destruct H as (o' & Hw & H). inversion H; subst.
   split; [exact Hm|]. split; [exact He|]. exists o'. split; [exact Hw|reflexivity].
 Qed.
 
+Lemma compile_prop_filters re_ok env idx x o :
+  compile_prop re_ok env idx x = Ok o -> enum_filters_ok env (item_of (p_ty (x_prop x))) = true.
+Proof.
+  unfold compile_prop. intro H. apply obind_ok in H. destruct H as (u & Hf & H).
+  destruct (enum_filters_ok env (item_of (p_ty (x_prop x)))); [reflexivity|discriminate H].
+Qed.
+
 Lemma compile_prop_intro re_ok env idx x o' :
   x_mult x = None -> evaluable re_ok (x_prop x) = true ->
+  enum_filters_ok env (item_of (p_ty (x_prop x))) = true ->
   write_prop env idx (x_prop x) = Ok o' ->
   compile_prop re_ok env idx x = Ok (with_map_ext x o').
 Proof.
-  intros Hm He Hw. unfold compile_prop.
-  rewrite (proj2 (front_checks_spec re_ok x) (conj Hm He)). cbn [obind]. rewrite Hw. reflexivity.
+  intros Hm He Hf Hw. unfold compile_prop.
+  rewrite (proj2 (front_checks_spec re_ok x) (conj Hm He)). cbn [obind]. rewrite Hf, Hw. reflexivity.
 Qed.
 
 (* on the declarations of RulesDecl alone the compiler is the writer behind the checks *)
 Lemma compile_plain re_ok env idx d :
-  evaluable re_ok d = true -> compile_prop re_ok env idx (plain d) = write_prop env idx d.
+  evaluable re_ok d = true -> enum_filters_ok env (item_of (p_ty d)) = true ->
+  compile_prop re_ok env idx (plain d) = write_prop env idx d.
 Proof.
-  intro He. unfold compile_prop. rewrite (proj2 (front_checks_spec re_ok (plain d)) (conj eq_refl He)).
-  cbn [obind plain x_prop]. destruct (write_prop env idx d) as [o| | |]; reflexivity.
+  intros He Hf. unfold compile_prop. rewrite (proj2 (front_checks_spec re_ok (plain d)) (conj eq_refl He)).
+  cbn [obind plain x_prop]. rewrite Hf. destruct (write_prop env idx d) as [o| | |]; reflexivity.
 Qed.
 
 Lemma compile_plain_refused re_ok env idx d :
@@ -179,6 +189,197 @@ Proof.
   rewrite Hp. apply negb_true_iff in Hu. rewrite Hu. cbn [negb].
   destruct (rule_semb re_match env (x_prop x) fv); [left|right]; reflexivity.
 Qed.
+
+(* ---- whole messages ------------------------------------------------------------------- *)
+Definition xrule_obj (pat_sem : str -> str -> Prop) (env : enum_env) (xs : list xprop) (fvs : list fvalue) : Prop :=
+  rule_obj pat_sem env (map x_prop xs) fvs /\ Forall2 (fun x fv => mult_sem (x_mult x) fv) xs fvs.
+
+Lemma compile_props_from_ok re_ok env xs : forall idx os,
+  compile_props_from re_ok env idx xs = Ok os ->
+  forallb (evaluable re_ok) (map x_prop xs) = true /\
+  Forall (fun x => x_mult x = None) xs /\
+  exists os', write_props_from env idx (map x_prop xs) = Ok os' /\
+              forall defined re_match fvs,
+                validate_obj re_ok re_match defined os fvs = validate_obj re_ok re_match defined os' fvs.
+Proof.
+  induction xs as [|x r IH]; intros idx os Hc.
+  - inversion Hc; subst. split; [reflexivity|]. split; [constructor|]. exists []. split; reflexivity.
+  - cbn [compile_props_from] in Hc. apply obind_ok in Hc. destruct Hc as (o & Ho & Hc).
+    apply obind_ok in Hc. destruct Hc as (os1 & Hos & Hc). inversion Hc; subst.
+    apply compile_prop_ok in Ho. destruct Ho as (Hm & He & o' & Hw & ->).
+    destruct (IH (idx + 1)%N os1 Hos) as (Hev & Hmr & os' & Hws & Hv).
+    split; [cbn [map forallb]; rewrite He, Hev; reflexivity|].
+    split; [constructor; assumption|].
+    exists (o' :: os'). split.
+    + cbn [map write_props_from]. rewrite Hw. cbn [obind]. rewrite Hws. reflexivity.
+    + intros defined re_match fvs. destruct fvs as [|fv fvs]; [reflexivity|].
+      cbn [validate_obj]. rewrite validate_with_map_ext, Hv. reflexivity.
+Qed.
+
+Theorem c12_compiled_object :
+  forall re_ok re_match pat_sem, engine_ok re_ok re_match pat_sem ->
+  forall env xs os fvs,
+    wf_env env = true ->
+    forallb key_placement_ok (map x_prop xs) = true ->
+    compile_object re_ok env xs = Ok os ->
+    typed_obj (map x_prop xs) fvs = true ->
+    (validate_obj re_ok re_match (defined_numbers env) os fvs = VAccept <-> xrule_obj pat_sem env xs fvs) /\
+    (validate_obj re_ok re_match (defined_numbers env) os fvs = VReject <-> ~ xrule_obj pat_sem env xs fvs).
+Proof.
+  intros re_ok re_match pat_sem He env xs os fvs Hwf Hkp Hc Hty.
+  unfold compile_object in Hc. destruct (props_distinct xs); [|discriminate].
+  destruct (compile_props_from_ok re_ok env xs 0%N os Hc) as (Hev & Hm & os' & Hw & Hv).
+  rewrite Hv.
+  destruct (c12_object re_ok re_match pat_sem (proj1 He) (proj1 (proj2 He)) (engine_id62_bool re_ok re_match pat_sem He)
+              env (map x_prop xs) 0%N os' fvs Hwf Hkp Hev Hw Hty) as [Ha Hr].
+  assert (Hmult : length xs = length fvs -> Forall2 (fun x fv => mult_sem (x_mult x) fv) xs fvs).
+  { clear - Hm. revert fvs. induction Hm as [|x r Hx Hr IH]; intros [|fv fvs] Hl; try discriminate; constructor.
+    - rewrite Hx. exact I.
+    - apply IH. injection Hl. auto. }
+  assert (Hlen : length xs = length fvs).
+  { clear - Hty. revert fvs Hty. induction xs as [|x r IH]; intros [|fv fvs] H; try discriminate; [reflexivity|].
+    cbn [map typed_obj] in H. apply andb_true_iff in H. destruct H as [_ H]. cbn [length]. f_equal. exact (IH fvs H). }
+  unfold xrule_obj. split.
+  - rewrite Ha. split; [intro H; split; [exact H|exact (Hmult Hlen)]|intros [H _]; exact H].
+  - rewrite Hr. split; [intros H [H1 _]; exact (H H1)|intros H H1; apply H; split; [exact H1|exact (Hmult Hlen)]].
+Qed.
+
+(* ---- closed instance: the RE2 fragment engine -------------------------------------------- *)
+(* no engine parameter is left: the compiler's regexp.Compile is the fragment parser,
+   the validator's matcher the derivative matcher, the meaning of a pattern the
+   declarative relation [pattern_sem] *)
+Theorem c12_compiled_concrete env idx x o fv :
+  wf_env env = true -> key_placement_ok (x_prop x) = true ->
+  compile_prop re_frag_ok env idx x = Ok o -> fvalue_typed (x_prop x) fv = true ->
+  (validate_sem re_frag_ok re_frag_match (defined_numbers env) o fv = VAccept <-> xrule_sem pattern_sem env x fv) /\
+  (validate_sem re_frag_ok re_frag_match (defined_numbers env) o fv = VReject <-> ~ xrule_sem pattern_sem env x fv).
+Proof. exact (c12_compiled re_frag_ok re_frag_match pattern_sem frag_engine env idx x o fv). Qed.
+
+(* what [patterns_in_fragment] buys: the pattern of a compiled declaration inside the
+   fragment IS an expression r of the fragment, and its declared meaning is the
+   declarative matching relation of r (Regex.search: some substring between the anchors
+   matches). Outside the fragment (valid RE2 the parser does not model) pattern_sem is
+   empty and nothing is claimed about Go's engine. *)
+Lemma in_fragment_pattern d p :
+  patterns_in_fragment d = true -> pattern_of (item_of (p_ty d)) = Some p -> re_in_fragment p = true.
+Proof.
+  unfold patterns_in_fragment. change (elem_ty (p_ty d)) with (item_of (p_ty d)).
+  generalize (item_of (p_ty d)). intros t Hin Hp.
+  destruct t as [k r l|f r l|r|r l|r l|f e l|a b l|r l|r l|r l|a b l|a b r|a b l];
+    cbn [pattern_of] in Hp; try discriminate Hp.
+  - destruct r as [r|]; [|discriminate Hp]. rewrite Hp in Hin. exact Hin.
+  - destruct f as [[|q| |]|]; try discriminate Hp. injection Hp as <-. exact Hin.
+Qed.
+
+Lemma evaluable_pattern re_ok d p :
+  evaluable re_ok d = true -> pattern_of (item_of (p_ty d)) = Some p -> re_ok p = true.
+Proof.
+  unfold evaluable. intros Hev Hp. apply andb_true_iff in Hev. destruct Hev as [Hok _].
+  rewrite pattern_of_ok in Hok. change (elem_ty (p_ty d)) with (item_of (p_ty d)) in Hok.
+  rewrite Hp in Hok. exact Hok.
+Qed.
+
+Lemma frag_parsed p : re_frag_ok p = true -> re_in_fragment p = true -> exists r, re_parse p = Parsed r.
+Proof.
+  unfold re_frag_ok, re_in_fragment. generalize (re_parse p). intros [r| |] H1 H2.
+  - exists r. reflexivity.
+  - discriminate H1.
+  - discriminate H2.
+Qed.
+
+Lemma pattern_sem_parsed p r : re_parse p = Parsed r -> forall s, pattern_sem p s <-> search r s.
+Proof.
+  intros E s. unfold pattern_sem. split.
+  - intros [r' [Hr H]]. rewrite E in Hr. injection Hr as <-. exact H.
+  - intro H. exists r. split; [exact E|exact H].
+Qed.
+
+Theorem compiled_pattern_meaning env idx x o p :
+  compile_prop re_frag_ok env idx x = Ok o ->
+  patterns_in_fragment (x_prop x) = true ->
+  pattern_of (item_of (p_ty (x_prop x))) = Some p ->
+  exists r, re_parse p = Parsed r /\ forall s, pattern_sem p s <-> search r s.
+Proof.
+  intros Hc Hin Hp. apply compile_prop_ok in Hc. destruct Hc as (_ & Hev & _).
+  destruct (frag_parsed p (evaluable_pattern re_frag_ok (x_prop x) p Hev Hp) (in_fragment_pattern (x_prop x) p Hin Hp)) as [r E].
+  exists r. split; [exact E|exact (pattern_sem_parsed p r E)].
+Qed.
+
+(* ---- required presence, per field kind, as the validator sees it --------------------- *)
+Section Presence.
+Variable re_ok : str -> bool.
+Variable re_match : str -> str -> bool.
+Variable pat_sem : str -> str -> Prop.
+Hypothesis He : engine_ok re_ok re_match pat_sem.
+
+Lemma mult_sem_absent m : mult_sem m FAbsent.
+Proof. destruct m; exact I. Qed.
+
+(* a singular field that can be absent (declared optional, or message typed): absent is
+   rejected iff the property must be set — whatever its other rules say *)
+Theorem presence_absent env idx x o :
+  wf_env env = true -> key_placement_ok (x_prop x) = true ->
+  compile_prop re_ok env idx x = Ok o -> fvalue_typed (x_prop x) FAbsent = true ->
+  (must_be_set (x_prop x) -> validate_sem re_ok re_match (defined_numbers env) o FAbsent = VReject) /\
+  (~ must_be_set (x_prop x) -> validate_sem re_ok re_match (defined_numbers env) o FAbsent = VAccept).
+Proof.
+  intros Hwf Hkp Hc Hty.
+  destruct (c12_compiled re_ok re_match pat_sem He env idx x o FAbsent Hwf Hkp Hc Hty) as [Ha Hr].
+  assert (Hx : xrule_sem pat_sem env x FAbsent <-> ~ must_be_set (x_prop x)).
+  { unfold xrule_sem, rule_sem. unfold fvalue_typed in Hty.
+    destruct (p_ty (x_prop x)) as [t|r sf t|r t]; try discriminate Hty.
+    split; [intros [H _]; exact H|intro H; split; [exact H|apply mult_sem_absent]]. }
+  split.
+  - intro Hm. apply Hr. rewrite Hx. intro H. exact (H Hm).
+  - intro Hm. apply Ha. apply Hx. exact Hm.
+Qed.
+
+(* repeated fields have no presence: "set" means non-empty. A required array (or map)
+   rejects the empty list (map), a non-required one is judged by its count rules only *)
+Theorem presence_empty_array env idx x o r sf t :
+  wf_env env = true -> key_placement_ok (x_prop x) = true ->
+  compile_prop re_ok env idx x = Ok o -> p_ty (x_prop x) = PArray r sf t ->
+  must_be_set (x_prop x) ->
+  validate_sem re_ok re_match (defined_numbers env) o (FMany []) = VReject.
+Proof.
+  intros Hwf Hkp Hc Et Hm.
+  assert (Hty : fvalue_typed (x_prop x) (FMany []) = true) by (unfold fvalue_typed; rewrite Et; reflexivity).
+  destruct (c12_compiled re_ok re_match pat_sem He env idx x o (FMany []) Hwf Hkp Hc Hty) as [_ Hr].
+  apply Hr. unfold xrule_sem, rule_sem. rewrite Et. intros [[H _] _]. exact (H Hm eq_refl).
+Qed.
+
+Theorem presence_empty_map env idx x o r t :
+  wf_env env = true -> key_placement_ok (x_prop x) = true ->
+  compile_prop re_ok env idx x = Ok o -> p_ty (x_prop x) = PMap r t ->
+  must_be_set (x_prop x) ->
+  validate_sem re_ok re_match (defined_numbers env) o (FMap []) = VReject.
+Proof.
+  intros Hwf Hkp Hc Et Hm.
+  assert (Hty : fvalue_typed (x_prop x) (FMap []) = true) by (unfold fvalue_typed; rewrite Et; reflexivity).
+  destruct (c12_compiled re_ok re_match pat_sem He env idx x o (FMap []) Hwf Hkp Hc Hty) as [_ Hr].
+  apply Hr. unfold xrule_sem, rule_sem. rewrite Et. intros [[H _] _]. exact (H Hm eq_refl).
+Qed.
+
+(* a singular field WITHOUT presence (a scalar not declared optional): the validator
+   cannot see "not set" — it reads the default value; so for it "absent" and "holds the
+   default" are one message and get one verdict *)
+Theorem presence_none_reads_default defined o :
+  has_presence o = false ->
+  validate_sem re_ok re_match defined o FAbsent
+  = validate_sem re_ok re_match defined o (FOne (zero_value (fo_kind o))).
+Proof. intro H. unfold validate_sem, got. rewrite H. reflexivity. Qed.
+
+(* required together with optional is refused by the compiler *)
+Theorem presence_required_and_optional env idx x :
+  p_req (x_prop x) = true -> p_opt (x_prop x) = true ->
+  forall o, compile_prop re_ok env idx x <> Ok o.
+Proof.
+  intros Hr Ho o Hc. apply compile_prop_ok in Hc. destruct Hc as (_ & _ & o' & Hw & _).
+  unfold write_prop in Hw. apply obind_ok in Hw. destruct Hw as (w & _ & Hw).
+  rewrite Hr, Ho in Hw. cbn [orb andb] in Hw. discriminate Hw.
+Qed.
+
+End Presence.
 
 (* ---- C04 on the compiler ------------------------------------------------------------ *)
 Lemma read_prop_with_map_ext env x o :
